@@ -31,6 +31,8 @@ enum Case {
     Unknown { ty: u8, id: u16, junk: u8 },
     Exit { variant: u8, code: u32 },
     Vars { subset: u8, conns: u64, prefill: u16, target: u8 },
+    /// Several replies generated one after the other on the same thread (limit, subset, target).
+    VarsSeq(Vec<(u64, u8, u8)>),
     Name(String),
 }
 
@@ -212,6 +214,12 @@ fn test_case(c: &Case) -> TestResult {
             Ok(Outcome::new(true))
         },
         Case::Vars { subset, conns, prefill, target } => test_vars(*subset, *conns as usize, *prefill as usize, *target),
+        Case::VarsSeq(calls) => {
+            for (conns, subset, target) in calls {
+                test_vars(*subset & 7, (*conns).max(1) as usize, 0, *target)?;
+            }
+            Ok(Outcome::new(calls.len() >= 2))
+        },
         Case::Name(s) => {
             let r = ProtocolVariables::parse_name(s.as_bytes());
             let exp = match s.as_str() {
@@ -540,6 +548,40 @@ pub fn property() -> Property {
         }),
     });
 
+    let seqs: Box<dyn Sub> = Box::new(EnumSub::<Case> {
+        name: "get_values_result_sequences",
+        rule: "replies generated back to back on one thread for configurations whose limits differ but agree in the low 8 / 16 / 32 bits, in the high bits, in the number of decimal digits or in all but one digit (every ordered pair from 14 such families, each followed by the first again), with every non-empty variable subset: each reply carries its own configuration's limit (nothing remembered from an earlier call); distinct by construction",
+        exhaustive: Box::new(|_| true),
+        guard_each: true,
+        test: Box::new(test_case),
+        body: Box::new(|_tier, shard, n, sink| {
+            let mut families: Vec<Vec<u64>> = Vec::new();
+            for x in [1u64, 9, 10, 183, 255, 256, 65535, 65536, 99_999, 4_294_967_295] {
+                families.push(vec![x, x + (1 << 8), x + (1 << 16), x + (1 << 32), x + (7 << 32), x + (1 << 63), x + (1 << 33) + (1 << 16)]);
+            }
+            families.push(vec![1234567, 1234568, 1234577, 2234567, 1234567890, 1234567891, 7654321]);
+            families.push(vec![u64::MAX, u64::MAX - (1 << 32), u64::MAX >> 32, u64::MAX >> 1, (u64::MAX >> 32) << 32 | 183]);
+            families.push(vec![100, 1000, 10000, 100000, 1 << 32, 1 << 31, (1 << 32) + 100]);
+            families.push(vec![42, 42 + (1 << 32), 42 + (2 << 32), 42 + (1 << 40), 43, 43 + (1 << 32)]);
+            let mut k = 0usize;
+            for f in &families {
+                for &a in f {
+                    for &b in f {
+                        if a == b {
+                            continue;
+                        }
+                        for subset in 1..8u8 {
+                            k += 1;
+                            if k % n == shard && !sink.check(Case::VarsSeq(vec![(a, subset, (k % 5) as u8), (b, subset, (k % 5) as u8), (a, subset | 1, 0), (b, 7, 0)])) {
+                                return;
+                            }
+                        }
+                    }
+                }
+            }
+        }),
+    });
+
     Property {
         id: "C17",
         level: "exploration",
@@ -547,6 +589,6 @@ pub fn property() -> Property {
             "oracle = the FastCGI specification's record layouts re-implemented independently in harness/src/wire.rs and in the expected-byte arrays of this module",
             "the end-of-request sequence is observed on the transport byte log through Request::close (sub-check epilogue_via_close)",
         ],
-        subs: vec![tables, vars, close],
+        subs: vec![tables, vars, seqs, close],
     }
 }
